@@ -116,6 +116,8 @@ struct Ctx {
     last_trigger: Vec<Option<u64>>,
     /// per node: peer -> node clock when the peer last received a Replicate list from it
     served_at: Vec<BTreeMap<u64, u64>>,
+    /// per node: key -> (node clock when a fetch of that key was lost, qualifying re-advertisements seen since its timeout)
+    lost_fetch: Vec<BTreeMap<u64, (u64, u64)>>,
     slow_histories: u64,
 }
 
@@ -332,6 +334,7 @@ fn exec_inner(ctx: &mut Ctx, out: &mut Out, ws: &[&str]) -> Option<(Option<Strin
             ctx.clock = vec![0; n as usize];
             ctx.last_trigger = vec![None; n as usize];
             ctx.served_at = vec![BTreeMap::new(); n as usize];
+            ctx.lost_fetch = vec![BTreeMap::new(); n as usize];
             out.count("history");
             Some((None, "ok".into()))
         }
@@ -616,9 +619,13 @@ fn exec_inner(ctx: &mut Ctx, out: &mut Out, ws: &[&str]) -> Option<(Option<Strin
                     out.count("drop:rep");
                     Some((None, "drop".into()))
                 }
-                Msg::Get { from, reply, .. } | Msg::Rsp { to: from, reply, .. } => {
+                Msg::Get { from, reply, key, .. } | Msg::Rsp { to: from, reply, key, .. } => {
                     out.count("drop:fetch");
                     let i = from as usize;
+                    if let Ok(kn) = ctx.sim().kid_addr(&key).parse::<u64>() {
+                        let now = ctx.clock[i];
+                        ctx.lost_fetch[i].insert(kn, (now, 0));
+                    }
                     let before = ctx.ogf_set(i);
                     if let Some(tx) = reply {
                         let _ = tx.send(Err(timeout_error()));
@@ -646,6 +653,10 @@ fn exec_inner(ctx: &mut Ctx, out: &mut Out, ws: &[&str]) -> Option<(Option<Strin
                     let view_before = ctx.node_view(i);
                     let before = ctx.ogf_set(i);
                     let holder_id = holder.as_peer_id().and_then(|p| ctx.uni.peer_ids.get(&p).copied());
+                    let adv: Vec<(u64, RecordType)> = keys
+                        .iter()
+                        .map(|(a, t)| (ctx.sim.as_ref().and_then(|s| s.key_ids.get(&a.to_record_key().to_vec()).copied()).unwrap_or(9999), t.clone()))
+                        .collect();
                     {
                         let sim = ctx.sim();
                         let _g = sim.rt.enter();
@@ -667,6 +678,42 @@ fn exec_inner(ctx: &mut Ctx, out: &mut Out, ws: &[&str]) -> Option<(Option<Strin
                         }
                     } else {
                         out.count(if log.sched.is_empty() { "rep:close:nothing-new" } else { "rep:close:scheduled" });
+                    }
+                    // oracle (1b) eventual fetch: a fetch of key k was lost (request or reply dropped) and FETCH_TIMEOUT has passed
+                    // at the requester. From then on, single-key advertisements of k by a heard holder that really holds k
+                    // (with the advertised type) must get k requested again: the first may be spent on clearing the dead
+                    // in-flight entry, the SECOND must schedule the fetch — unless the node holds that version by now.
+                    let scheduled_keys: Vec<u64> = log
+                        .sched
+                        .iter()
+                        .flatten()
+                        .filter_map(|(_, k)| ctx.sim.as_ref().and_then(|s| s.key_ids.get(&k.to_vec()).copied()))
+                        .collect();
+                    for k in &scheduled_keys {
+                        ctx.lost_fetch[i].remove(k);
+                    }
+                    if close && adv.len() == 1 {
+                        let (k, t) = adv[0].clone();
+                        let holder_has = holder_id
+                            .and_then(|h| ctx.held.get(h as usize).and_then(|m| m.get(&k)).cloned())
+                            .map(|v| independent_type(&v) == Some(t.clone()))
+                            .unwrap_or(false);
+                        let i_has_same = ctx.held[i].get(&k).map(|v| independent_type(v) == Some(t.clone())).unwrap_or(false);
+                        if let Some((at, seen)) = ctx.lost_fetch[i].get(&k).copied() {
+                            if holder_has && !i_has_same && ctx.clock[i] >= at + 25 {
+                                let seen = seen + 1;
+                                ctx.lost_fetch[i].insert(k, (at, seen));
+                                out.count(&format!("eventual-fetch:readvertised-{}", seen.min(3)));
+                                if seen >= 2 {
+                                    let what = format!(
+                                        "node {to} lost its fetch of key {k} at t={at}s; {} s later the {seen}. single-key advertisement of that record by heard holder {} (who holds it) still does not get it requested again",
+                                        ctx.clock[i] - at,
+                                        holder_id.unwrap_or(9999)
+                                    );
+                                    fail(out, ctx, "immutable_replicates", what);
+                                }
+                            }
+                        }
                     }
                     let res = format!("rep sched={} fail={} | {} | wire+={}", join(sched.clone()), fail_str(ctx, &log), view, ctx.wire_str(&log.new_msgs));
                     out.nontrivial_case(&format!("{} -> {}", ctx.history.last().cloned().unwrap_or_default(), res));
@@ -1044,9 +1091,82 @@ fn gen_tight_rounds_history(ctx: &mut Ctx, out: &mut Out, rng: &mut Rng, budget:
     run(ctx, out, "dump".into(), budget);
 }
 
+/// a fetch is lost (request or reply dropped), FETCH_TIMEOUT passes at the requester, and the single record of the
+/// holder (so that its periodic list is a single-key list) is re-advertised in 2-4 further loss-free rounds
+fn gen_lost_fetch_history(ctx: &mut Ctx, out: &mut Out, rng: &mut Rng, budget: &mut i64) {
+    let n = if rng.chance(2, 3) { 2 } else { 3 } as usize;
+    let run = |ctx: &mut Ctx, out: &mut Out, l: String, budget: &mut i64| {
+        exec(ctx, out, &l);
+        *budget -= 1;
+    };
+    run(ctx, out, format!("new {n}"), budget);
+    for i in 0..n {
+        let mut peers: Vec<u64> = (0..n as u64).filter(|j| *j != i as u64).collect();
+        let s = rng.below(3) as usize;
+        peers.extend(ctx.uni.close_strangers[i].iter().take(s).copied());
+        let l = rt_line(&ctx.uni, i, &peers);
+        run(ctx, out, l, budget);
+    }
+    let k = *rng.pick(&[0u64, 3, 2, 5, 4, 10]);
+    for i in 0..n {
+        let l = kd_line(&ctx.uni, i, &[k]);
+        run(ctx, out, l, budget);
+    }
+    let holder = rng.below(n as u64) as usize;
+    let c = match k % 3 {
+        0 => Content::Chunk,
+        1 => Content::Txs(vec![rng.below(3)]),
+        _ => Content::Reg { alt: false, ops: vec![rng.below(3)] },
+    };
+    run(ctx, out, format!("seed {holder} {k} {}", content_token(&c)), budget);
+    run(ctx, out, format!("interval {holder}"), budget);
+    // deliver everything, losing the request or the reply of every fetch
+    let lose_reply = rng.chance(1, 2);
+    let mut guard = 0;
+    loop {
+        let p = pending(ctx);
+        if p.is_empty() || guard > 40 {
+            break;
+        }
+        guard += 1;
+        let (id, kind, _to) = p[0];
+        match kind {
+            'r' => run(ctx, out, format!("deliver {id}"), budget),
+            'g' if lose_reply => run(ctx, out, format!("deliver {id}"), budget),
+            _ => run(ctx, out, format!("drop {id}"), budget),
+        }
+    }
+    // past FETCH_TIMEOUT everywhere, then loss-free rounds
+    for i in 0..n {
+        run(ctx, out, format!("tick {i} {}", rng.pick(&[25u64, 50])), budget);
+    }
+    for _ in 0..rng.range(2, 4) {
+        run(ctx, out, format!("tick {holder} 50"), budget);
+        run(ctx, out, format!("interval {holder}"), budget);
+        let mut guard = 0;
+        loop {
+            let p = pending(ctx);
+            if p.is_empty() || guard > 40 {
+                break;
+            }
+            guard += 1;
+            let (id, kind, to) = *rng.pick(&p);
+            if kind == 'g' && to >= n as u64 {
+                run(ctx, out, format!("drop {id}"), budget);
+            } else {
+                run(ctx, out, format!("deliver {id}"), budget);
+            }
+        }
+    }
+    run(ctx, out, "dump".into(), budget);
+}
+
 fn gen_history(ctx: &mut Ctx, out: &mut Out, rng: &mut Rng, budget: &mut i64) {
     if rng.chance(1, 5) {
         return gen_boundary_history(ctx, out, rng, budget);
+    }
+    if rng.chance(1, 8) {
+        return gen_lost_fetch_history(ctx, out, rng, budget);
     }
     if rng.chance(1, 5) {
         return gen_tight_rounds_history(ctx, out, rng, budget);
@@ -1255,6 +1375,15 @@ fn corpus(uni: &Universe) -> Vec<String> {
             v.push(l.into());
         }
     }
+    // a lost fetch is retried: node 1's fetch of the only chunk of node 0 loses its reply; past FETCH_TIMEOUT the next
+    // (single-key) advertisement clears the dead in-flight entry (node 0 is reported as failed), the one after it is fetched
+    mesh2(&mut v, &[0]);
+    for l in [
+        "seed 0 0 C", "interval 0", "deliver 1", "deliver 2", "drop 3", "tick 1 25", "tick 0 50", "interval 0", "deliver 4", "tick 0 50", "interval 0", "deliver 5",
+        "deliver 6", "deliver 7", "dump",
+    ] {
+        v.push(l.into());
+    }
     // a heard holder advertises a chunk it does not hold: the fetch is scheduled, the holder answers "not found", the
     // fallback network get finds nothing, nothing is stored
     mesh2(&mut v, &[0]);
@@ -1323,6 +1452,7 @@ fn main() {
         clock: vec![],
         last_trigger: vec![],
         served_at: vec![],
+        lost_fetch: vec![],
         slow_histories: 0,
     };
     if let Some(p) = &args.replay {
